@@ -89,8 +89,10 @@ fn from_recipe(fmt: Fmt, r: &Recipe) -> (u64, i32, bool, &'static str, bool) {
         1 => {
             let c = gen::g_d(fmt, r);
             let w = std::str::from_utf8(&c.int).ok().and_then(|s| s.parse::<u64>().ok());
+            // the tie itself half of the time, otherwise its neighbours w +- 1, 2 (one below / above a tie)
+            let d = [0i64, 0, 0, 0, 1, -1, 2, -2][(r.k[3] % 8) as usize];
             match (w, c.frac.is_empty()) {
-                (Some(w), true) => (cap(w), c.exp, t, "short-exact-tie", true),
+                (Some(w), true) => (cap((w as i128 + d as i128).clamp(0, u64::MAX as i128) as u64), c.exp, t, "short-exact-tie", true),
                 _ => (cap(r.a), (r.b % 800) as i32 - 400, t, "uniform", false),
             }
         }
